@@ -358,7 +358,7 @@ func c16b(c *Ctx) {
 			c.Check(ok, key, pos, "the write that follows the marker renders the construct that owns the token", fmt.Sprintf("the marker uses token %s but the next write renders %v: the marker would name the line of a different construct", pretty(tok), prettyAll(ops)))
 		}
 	}
-	c.Check(n >= 13, "marker-sites", "-", fmt.Sprintf("%d tryEmitLineMarker sites", n), fmt.Sprintf("only %d tryEmitLineMarker sites found", n))
+	c.Check(n >= 8, "marker-sites", "-", fmt.Sprintf("%d tryEmitLineMarker sites", n), fmt.Sprintf("only %d tryEmitLineMarker sites found", n))
 	// raw lines: marker i then line i
 	if fn := c.Fn("emitter.Emitter.emitRawStatement"); fn != nil {
 		emit := c.Fn("emitter.emitLineMarker")
